@@ -164,6 +164,10 @@ def gen_system(rng):
         if rng.random() < 0.2 and n > 1: vals[rng.randrange(n)] = rng.choice(dy)
         data["g1_hh"] = ("float", vals)
 
+    if "x2_m" in data and rng.random() < 0.35:
+        # a group-level, time-suffixed data column whose individual-level counterpart exists as well
+        per = {h: rng.choice(dy) for h in set(hh)}
+        data["x2_m_hh"] = ("float", [per[h] for h in hh])
     # ---- rule names
     nrules = rng.choice([1, 2, 3, 4, 5, 6])
     names = []
@@ -270,6 +274,7 @@ def gen_system(rng):
         cands += variants(u)
     cands += list(gspecs)
     if std: cands += [g + "_id" for g in ["wthh", "fg", "bg", "eg", "ehe", "sn"]] * 2
+    if "x2_m_hh" in data: cands += ["x2_y_hh", "x2_w_hh", "x2_y_hh"]
     for dcol in ["x1", "x2_m", "k1", "f1"]:
         if dcol in data: cands += [dcol + "_hh"] + ([dcol[:-1] + "y", dcol[:-1] + "y_hh"] if dcol.endswith("_m") else [])
     nt = rng.choice([1, 1, 2, 3, 4])
